@@ -23,3 +23,16 @@ func VerifNullClone(dst, blockfile *os.File, offset, length, blocksize uint64) (
 	s := &nullChunkSection{from: offset, to: offset + length, blockfile: blockfile, canReflink: true}
 	return s.clone(dst, offset, length, blocksize)
 }
+
+// VerifPlanSegments returns the [first,last] index positions of every segment of the plan the
+// sequencer builds for idx with the given seeds, and whether the segment has a seed source.
+func VerifPlanSegments(idx Index, seeds ...Seed) (out [][3]int) {
+	for _, c := range NewSeedSequencer(idx, seeds...).Plan() {
+		src := 0
+		if c.source != nil {
+			src = 1
+		}
+		out = append(out, [3]int{c.indexSegment.first, c.indexSegment.last, src})
+	}
+	return out
+}
